@@ -284,6 +284,16 @@ Definition transition (e : env) (m : msg) (o : opaque) (top : action) (s : st) :
     else if e_gp e <? m_gas m then (s, RInvalid)
     else after_buy e m o top (p_sub (m_from m) (m_gas m * m_price m) s).
 
+(* ExecutionResult.QuaiFees, "fees that need to be credited to the miner from the transaction": every
+   return of TransitionDb computes gasUsed x st.fee() (st.fee() = st.gasPrice); the two returns an inbound
+   ETX can reach (ETX gas limit exceeded; the end of TransitionDb, `if !st.msg.IsETX()`) give 0.  The
+   block pays this amount out later (coinbase ETX), so it has to be covered by what the payer lost. *)
+Definition fees_of (m : msg) (r : result) : Z :=
+  match r with
+  | RInvalid => 0
+  | RDone used _ => if m_isETX m then 0 else used * m_price m
+  end.
+
 (* state_processor.go:applyTransaction -> StateDB.Finalize(true): self-destructed accounts are deleted *)
 Definition finalise (s : st) : st :=
   fold_left (fun x a => mkSt (bset a 0 (bal x)) (sui x) (etx x) (burn x + bget a (bal x)) (rent x) (bad x) (nsnap x) (trace x))
@@ -421,11 +431,22 @@ Fixpoint run_block (l : list txn) (b : bmap) (acc : totals) : bmap * totals :=
   | t :: r => let '(b', acc') := run_tx t b acc in run_block r b' acc'
   end.
 
+(* the QuaiFees of the ExecutionResults of the block, message by message along [run_block] (a refused
+   message has no result) *)
+Fixpoint block_fees (l : list txn) (b : bmap) : Z :=
+  match l with
+  | [] => 0
+  | t :: r =>
+      let '(s', res) := (if t_inbound t then apply_etx else apply_tx) (t_env t) (t_msg t) (t_opq t) (t_top t) (init b) in
+      fees_of (t_msg t) res + block_fees r (if is_invalid res then b else bal s')
+  end.
+
 (* ---------- correspondence check ---------- *)
 Record obs := mkObs {
   b_invalid : bool;              (* ApplyMessage returned (nil, err) *)
   b_used : Z;                    (* ExecutionResult.UsedGas *)
   b_failed : bool;               (* ExecutionResult.Failed() *)
+  b_fees : Z;                    (* ExecutionResult.QuaiFees *)
   b_post : bmap;                 (* balances of the whole universe after ApplyMessage (before Finalize) *)
   b_fin : bmap;                  (* ... after Finalize (and, for an inbound ETX, after the zero address is reset) *)
   b_sui : list addr;             (* accounts with HasSuicided after ApplyMessage, ascending *)
@@ -492,13 +513,15 @@ Definition txn_hyps_ok (t : txn) : bool :=
   (0 <=? e_rent e) && wf (t_top t) && (0 <=? m_price m) && (0 <=? m_value m) && (0 <=? m_gas m)
   && (0 <=? o_gleft o) && (o_gleft o <=? m_gas m) && (0 <=? o_refctr o)
   && (if m_isETX m then m_price m =? 0 else true) && Bool.eqb (m_isETX m) (t_inbound t).
+Definition shape_ok (m : msg) : bool := (0 <=? m_nz m) && (0 <=? m_z m) && (0 <=? m_al m) && (0 <=? m_keys m).
 Definition blk_hyps_ok (c : case) : bool :=
   forallb txn_hyps_ok (c_blk c) && forallb (fun p => 0 <=? snd p) (c_blkpre c).
+Definition blk_shape_ok (c : case) : bool := forallb (fun t => shape_ok (t_msg t)) (c_blk c).
 (* the model, run over the earlier messages of the block from the balances at its start, arrives at the
    balances the real StateDB shows in front of this message (in particular: an account removed by Finalize
    holds nothing when a later message brings its address back) *)
 Definition blk_ok (c : case) : bool :=
-  blk_hyps_ok c && bals_agree (c_pre c) (fst (run_block (c_blk c) (c_blkpre c) tot0)).
+  blk_hyps_ok c && blk_shape_ok c && bals_agree (c_pre c) (fst (run_block (c_blk c) (c_blkpre c) tot0)).
 
 Definition case_ok (c : case) : bool :=
   let e := c_env c in let m := c_msg c in let b := c_obs c in
@@ -511,6 +534,7 @@ Definition case_ok (c : case) : bool :=
   && match r with
      | RInvalid => b_invalid b
      | RDone used failed => negb (b_invalid b) && (used =? b_used b) && Bool.eqb failed (b_failed b)
+                            && (fees_of m r =? b_fees b)
      end
   && bals_agree (b_post b) (bal s1)
   && bals_agree (b_fin b) (bal sf')
@@ -541,7 +565,7 @@ Definition pR i := PRevert (zn i).
 Definition kSuicide (b : Z) : kind := KSuicide (if b <? 0 then None else Some (zn b)).
 Definition cEnv bf na pf mx gp := mkEnv bf na pf mx gp 0%N.
 Definition cMsg f v g p x k c nz z al ks := mkMsg (zn f) v g p x k c nz z al ks.
-Definition cObs inv used failed post fin sui etx tr := mkObs inv used failed (zb post) (zb fin) (zl sui) etx tr.
+Definition cObs inv used failed fees post fin sui etx tr := mkObs inv used failed fees (zb post) (zb fin) (zl sui) etx tr.
 Definition cCase id inb e m o top pre ob := mkCase (zn id) inb e m o top (zb pre) ob (zb pre) [].
 Definition cTxn inb e m o top := mkTxn inb e m o top.
 Definition cCaseB id inb e m o top pre ob blkpre blk := mkCase (zn id) inb e m o top (zb pre) ob (zb blkpre) blk.
